@@ -21,8 +21,12 @@ FACT = {"ps": 1, "ns": 10 ** 3, "us": 10 ** 6, "ms": 10 ** 9, "s": 10 ** 12, "m"
         "h": 3600 * 10 ** 12, "D": 86400 * 10 ** 12, "W": 7 * 86400 * 10 ** 12}
 
 # generating set of initial axes: (unit, t0, interval, length), t0 / interval whole numbers of the unit
-AXES_QUICK = [("ms", 2, 2, 4), ("s", -3, 1, 3), ("ps", 0, 6, 5), ("us", 5, 4, 1), ("m", 0, 2, 2), ("ms", -4, 3, 6)]
+AXES_QUICK = [("ms", 2, 2, 4), ("s", -3, 1, 3), ("ps", 0, 6, 5), ("us", 5, 4, 1), ("m", 0, 2, 2), ("ms", -4, 3, 6),
+              # magnitudes: days (8.64e16 ps per step, negative start), and picosecond values just above powers of two
+              ("D", -2, 1, 5), ("ps", 2 ** 40 + 1, 2 ** 33 + 1, 3)]
 AXES_THOROUGH = AXES_QUICK + [("ns", 7, 2, 8), ("h", -1, 1, 7)]
+# the same axis reached through other paths: every one must start (and stay) as consistent as the constructed one
+DERIVE = ["plus0", "copycopy", "npcopy", "view", "fullslice", "series_time", "positional", "from_duration", "from_axis"]
 
 
 def err_name(e):
@@ -186,8 +190,31 @@ def observe(u):
 
 
 def fresh(ts, axis):
-    unit, t0, dt, n = axis
-    return ts.UniformTime(length=n, sampling_interval=dt, t0=t0, time_unit=unit)
+    import copy
+    unit, t0, dt, n = axis[:4]
+    how = axis[4] if len(axis) > 4 else "ctor"
+    if how == "series_time":
+        return ts.TimeSeries(np.zeros(n), sampling_interval=dt, t0=t0, time_unit=unit).time
+    if how == "positional":
+        return ts.UniformTime(None, n, None, None, dt, t0, unit)
+    if how == "from_duration":
+        return ts.UniformTime(duration=n * dt, sampling_interval=dt, t0=t0, time_unit=unit)
+    u = ts.UniformTime(length=n, sampling_interval=dt, t0=t0, time_unit=unit)
+    if how == "ctor":
+        return u
+    if how == "plus0":
+        return u + 0
+    if how == "copycopy":
+        return copy.copy(u)
+    if how == "npcopy":
+        return np.copy(u, subok=True)
+    if how == "view":
+        return u.view()
+    if how == "fullslice":
+        return u[:]
+    if how == "from_axis":
+        return ts.UniformTime(u)
+    raise KeyError(how)
 
 
 def run_history(ts, axis, ops):
@@ -235,7 +262,7 @@ def tree_coq(node, axis):
 
 
 def case_coq(axis, init, trees):
-    unit, t0, dt, n = axis
+    unit, t0, dt, n = axis[:4]
     cf = FACT[unit]
     return "(mk_case %s %s %s %s %s %s)" % (zlit(t0 * cf), zlit(dt * cf), nlit(n), zlit(cf), obs_coq(init, None),
                                           llit([tree_coq(t, axis) for t in trees]))
@@ -414,6 +441,16 @@ def run(ctx):
         plans = [(AXES_QUICK, alphabet(True), 3)]
     else:
         plans = [(AXES_QUICK[:4], alphabet(True), 4), (AXES_THOROUGH, alphabet(False), 3)]
+    base_axes = AXES_QUICK if ctx.quick else AXES_THOROUGH
+    # (an axis rebuilt from an axis re-derives its interval from the float64 rate: exact only below 2^50 ps — C02's finding)
+    def derived(axes):
+        return [ax + (how,) for ax in axes for how in DERIVE
+                if not (how == "from_axis" and ax[2] * FACT[ax[0]] >= 2 ** 50)]
+    if ctx.quick:
+        plans.append((derived(AXES_QUICK[::2]), alphabet(True), 2))
+    else:
+        plans.append((derived(base_axes), alphabet(True), 2))
+        plans.append((derived([AXES_QUICK[0], AXES_QUICK[6]]), alphabet(True), 3))
     cases = []
     stats = {"judged": 0, "fail": 0}
     counter = [0]
@@ -435,7 +472,8 @@ def run(ctx):
                 t = build(ts, axis, [], [sch], 1, counter)[0]
                 if depth > 1:
                     t["kids"] = build(ts, axis, [t["op"]], schemes, depth - 1, counter)
-                emit(axis, init, a0, t, "%s/%s/depth%d" % (axis[0], t["op"]["k"], depth), {"axis": list(axis), "first_op": t["op"]})
+                emit(axis, init, a0, t, "%s/%s/%s/depth%d" % (axis[0], axis[4] if len(axis) > 4 else "ctor", t["op"]["k"], depth),
+                     {"axis": list(axis), "first_op": t["op"]})
     for axis in AXES_QUICK if ctx.quick else AXES_THOROUGH:
         cf = FACT[axis[0]]
         init = observe(fresh(ts, axis))
